@@ -257,3 +257,6 @@ PROPS["C12"] = {
     "level_text": "Kernel-checked: checkDiff_sound - when the verified checker accepts (f, df) then at every real point (where f is defined nearby and df is defined) the entries of df are the partial derivatives of the entries of f in the layout [d f_i / d x_j]; dual_gradient_correct / accepted_derivative_equal - the exact point oracle compares with the TRUE derivative. Every (f, f.diff()) pair generated is submitted to both.",
     "level_note": "Trusted: Lean kernel + Mathlib (axioms propext/Classical.choice/Quot.sound); dumper/driver glue. Genuine defects found and fixed (e37b7124, 5e54ba7c, 2b18df75).",
 }
+
+from props_C19 import ENTRY as _C19
+PROPS["C19"] = _C19
